@@ -21,6 +21,7 @@ import itertools
 import json
 import os
 import random
+import re
 import subprocess
 import sys
 import time
@@ -623,7 +624,7 @@ def reorder_batch(rjobs, base, rng, table, skmax, use_model, bad, diffs, cnt, no
             if pj["vals"][0] != "rand":
                 continue
             w = gen_values(pj["vals"], n)
-            want = [w[p] if p >= 0 else 0 for p in rec]
+            want = [w[p] if 0 <= p < n else 0 for p in rec]
             if r["d"] != want and valid:
                 bad.append((dict(key, kind="values"), {"job": pj, "decoded": r["d"][:200], "want": want[:200]},
                             "decoding the stream of a random volume does not give the reordered weights for configuration %r" % (c,)))
@@ -860,7 +861,7 @@ def run(tier):
 
     seen = set()
     for key, detail, what in bad:
-        kk = json.dumps({k: v for k, v in key.items() if k in ("kind", "entry")}, sort_keys=True)
+        kk = json.dumps({k: v for k, v in key.items() if k in ("kind", "entry", "error", "function")}, sort_keys=True)
         if kk in seen:
             continue   # one report per kind of failure
         seen.add(kk)
@@ -917,10 +918,6 @@ def sanitizer_pass(seqs, streams, rjobs, table, skmax, corrupt, rng, bad):
             if o is None:
                 continue
             rc, out, err = o
-            if rc != 0 or "ERROR: AddressSanitizer" in err or "runtime error" in err:
-                done = sum(1 for l in out if l.startswith("S "))
-                culprit = expect[idx[min(done, len(idx) - 1)]][0]
-                reports.append({"rc": rc, "input": str(culprit), "stderr": err[-1500:]})
             k = 0
             for l in out:
                 if l.startswith("S "):
@@ -930,11 +927,36 @@ def sanitizer_pass(seqs, streams, rjobs, table, skmax, corrupt, rng, bad):
                     ran += 1
                     if expect[i][1] is not None and [int(x) for x in t[3:]] != expect[i][1]:
                         mism += 1
+            if rc != 0 or "ERROR: AddressSanitizer" in err or "runtime error" in err:
+                # the process stops at the first report: the input after the last completed one is the culprit;
+                # confirm it alone, then go on with the rest of the chunk
+                rest = idx[k:]
+                while rest:
+                    rc1, out1, err1 = run_sanitized(exe, [lines[rest[0]]])
+                    if rc1 != 0 or "ERROR: AddressSanitizer" in err1 or "runtime error" in err1:
+                        m = re.search(r"SUMMARY: \w+: (\S+) \S*?([\w.]+:\d+)(?::\d+)? in (\w*)", err1)
+                        reports.append({"rc": rc1, "input": str(expect[rest[0]][0]), "input_line": lines[rest[0]][:3000],
+                                        "error": m.group(1) if m else "?", "site": m.group(2) if m else "?", "function": m.group(3) if m else "?",
+                                        "stderr": err1[:1800]})
+                    else:
+                        ran += 1
+                    rest = rest[1:]
+                    if rest:
+                        rc2, out2, err2 = run_sanitized(exe, [lines[i] for i in rest])
+                        done = sum(1 for l in out2 if l.startswith("S "))
+                        ran += done
+                        if rc2 == 0 and "ERROR: AddressSanitizer" not in err2 and "runtime error" not in err2:
+                            break
+                        rest = rest[done:]
         info[name] = {"built": True, "cmd": log, "inputs": len(lines), "ran": ran, "sanitizer_reports": len(reports),
                       "stream_differs_from_extension": mism, "first_report": reports[0] if reports else None}
-        if reports:
-            r0 = reports[0]
-            bad.append(({"kind": "sanitizer", "build": name}, r0, "ASan/UBSan build (%s) reports an error on input %s" % (name, r0["input"])))
+        seen_sites = set()
+        for r0 in reports:
+            if (r0["error"], r0["function"]) in seen_sites:
+                continue
+            seen_sites.add((r0["error"], r0["function"]))
+            bad.append(({"kind": "sanitizer", "error": r0["error"], "function": r0["function"]}, dict(r0, build=name, reports_in_this_build=len(reports)),
+                        "ASan/UBSan build (%s) of the codec: %s at %s in %s on input %s" % (name, r0["error"], r0["site"], r0["function"], r0["input_line"][:60])))
         # corrupted streams through the sanitized decoder, one process each (it exits on underrun)
         if ndebug:
             sub = corrupt[:600]
